@@ -94,28 +94,49 @@ def run_impl(p):
     from npstructures import RaggedArray
     def f():
         vals = _vals(p)
-        ra = RaggedArray(vals.copy(), list(p["lens"]))
+        base = vals.copy()
+        ra = RaggedArray(base, list(p["lens"]))
         name, how, axis = p["name"], p["how"], p["axis"]
-        with np.errstate(all="ignore"), warnings.catch_warnings():
-            warnings.simplefilter("ignore")
+        def call():
             if how == "method":
                 kw = {"axis": axis} if axis is not None else {}
                 if p["keepdims"]:
                     kw["keepdims"] = True
-                res = getattr(ra, name)(**kw)
-            elif how == "ufunc":
-                res = getattr(np, name).reduce(ra, axis=axis)
-            else:
-                res = getattr(np, name)(ra, axis=axis) if axis is not None else getattr(np, name)(ra)
+                return getattr(ra, name)(**kw)
+            if how == "ufunc":
+                return getattr(np, name).reduce(ra, axis=axis)
+            return getattr(np, name)(ra, axis=axis) if axis is not None else getattr(np, name)(ra)
+        with np.errstate(all="ignore"), warnings.catch_warnings():
+            warnings.simplefilter("ignore")
+            res = call()
         if axis is None:
             return {"k": "obs", "scalar": canon(res if not isinstance(res, (bool, int, float)) else np.asarray(res)[()])}
         arr = np.asarray(res)
+        # the same reduction again on the same object after a write that does not go through __setitem__ (fill / the flat view / the
+        # numpy array the RaggedArray was built on): anything remembered from the first call must not survive
+        again = None
+        unchanged = bool(np.array_equal(ra.ravel().view(np.uint8), vals.view(np.uint8)))
+        if p["vseed"] % 2 == 0:
+            one = np.ones(1, dtype=vals.dtype)[0]
+            how_w = p["vseed"] % 3
+            if how_w == 0:
+                ra.fill(one)
+            elif how_w == 1 and ra.size:
+                ra.ravel()[-1] = one
+            elif ra.size:
+                base[0] = one
+            with np.errstate(all="ignore"), warnings.catch_warnings():
+                warnings.simplefilter("ignore")
+                again = np.asarray(call())
         shape_ok = arr.shape == ((len(p["lens"]), 1) if p["keepdims"] else (len(p["lens"]),))
         flat = arr.reshape(-1)
         need = name in NO_IDENTITY
-        return {"k": "obs", "values": {"k": "list", "v": _masked(list(flat), p["lens"], need)} if shape_ok else canon(arr),
-                "dtype": canon(str(arr.dtype)) if any(l > 0 for l in p["lens"]) else canon("n/a"),
-                "unchanged": canon(bool(np.array_equal(ra.ravel().view(np.uint8), vals.view(np.uint8))))}
+        o = {"k": "obs", "values": {"k": "list", "v": _masked(list(flat), p["lens"], need)} if shape_ok else canon(arr),
+             "dtype": canon(str(arr.dtype)) if any(l > 0 for l in p["lens"]) else canon("n/a"),
+             "unchanged": canon(unchanged)}
+        if again is not None:
+            o["after_write"] = {"k": "list", "v": _masked(list(again.reshape(-1)), p["lens"], need)} if again.shape == arr.shape else canon(again)
+        return o
     return guarded(f)
 
 
@@ -169,9 +190,22 @@ def oracle(p):
     rows, k = [], 0
     for l in p["lens"]:
         rows.append(list(vals[k:k + l])); k += l
-    if p["name"] in ("mean",) and np.dtype(p["dtype"]).kind == "f":
-        pass
-    return _expect_from_rows(p, rows)
+    o = _expect_from_rows(p, rows)
+    if p["axis"] is not None and p["vseed"] % 2 == 0 and isinstance(o, dict) and "values" in o:
+        v2 = vals.copy()
+        one = np.ones(1, dtype=vals.dtype)[0]
+        how_w = p["vseed"] % 3
+        if how_w == 0:
+            v2[...] = one
+        elif how_w == 1 and v2.size:
+            v2[-1] = one
+        elif v2.size:
+            v2[0] = one
+        rows2, k = [], 0
+        for l in p["lens"]:
+            rows2.append(list(v2[k:k + l])); k += l
+        o["after_write"] = _expect_from_rows(p, rows2)["values"]
+    return o
 
 
 def _int_rows(p):
